@@ -51,6 +51,11 @@ def typ(e, table=None):
         return table[e[1]]
     if k in ('neg', 'pos'):
         return typ(e[1])
+    if k == 'inv':
+        t = typ(e[1])
+        if t[0] != t[1]:
+            raise Mismatch('inverse of a non-square operator')
+        return t
     if k in ('k*', '*k', '/k'):
         t = typ(e[2])
         if e[1] not in SCALAR_OK:
@@ -104,6 +109,17 @@ def plan(tier, seed):
             for e in reversed(seq[:-1]):
                 right = [o, e, right]
             trees += [left, right]
+    # lazy inverses of composite (temporary) symmetric positive-definite operands inside larger expressions
+    spd = [['+', L('S'), L('D')], ['+', L('S'), L('S')], ['@', L('S'), L('S')], ['+', L('D'), ['@', L('S'), L('S')]], ['k*', 'int3', L('S')]]
+    others = [L(n) for n in ('P', 'Q', 'PpQ', 'I', 'K', 'D', 'Di', 'S', 'Si', 'SPQ')] + [[o, L(x), L(y)] for o in BIN for x, y in (('P', 'Q'), ('S', 'D'), ('S', 'S'), ('D', 'K'))]
+    for x in spd:
+        ix = ['inv', x]
+        trees += [ix, ['inv', ix], ['neg', ix], ['k*', 'float.5', ix]]
+        for y in others + spd:
+            trees += [['@', ix, y], ['@', y, ix], ['+', ix, y], ['-', y, ix]]
+        for x2 in spd:
+            trees += [['@', ix, ['inv', x2]], ['+', ['inv', x2], ix]]
+    trees += [['inv', L(n)] for n in ('G', 'W', 'Ctp', 'Rdc')]    # not square: refused
     stokes_core = ['R', 'Rt', 'H', 'Is']
     for x, y, z in itertools.product(stokes_core, repeat=3):
         for o1, o2 in itertools.product(BIN, repeat=2):
@@ -197,6 +213,8 @@ def build(e):
         return -build(e[1])
     if k == 'pos':
         return +build(e[1])
+    if k == 'inv':
+        return build(e[1]).I     # the operand is a temporary: nothing keeps it alive afterwards
     if k == 'k*':
         return E['scal'][e[1]] * build(e[2])
     if k == '*k':
@@ -222,6 +240,10 @@ def ref(e):
         return -ref(e[1])
     if k == 'pos':
         return ref(e[1])
+    if k == 'inv':
+        import numpy as np
+
+        return np.linalg.inv(ref(e[1]))
     if k in ('k*', '*k'):
         return SCALAR_OK[e[1]] * ref(e[2])
     if k == '/k':
@@ -308,7 +330,7 @@ def run(phase, cases, ctx):
             violations.append({'kind': 'not-an-operator', 'case': case, 'detail': f'the expression evaluates to {type(op).__name__}'})
             continue
         M = ref(case)
-        tol = 1e-3 if 'Si' in text else (1e-4 if any(x in text for x in ('"R"', '"Rt"')) else 1e-5)
+        tol = 1e-3 if ('Si' in text or '"inv"' in text) else (1e-4 if any(x in text for x in ('"R"', '"Rt"')) else 1e-5)
         singular = phase == 'singular'
         try:
             for label, o in (('built', op), ('reduced', None)):
